@@ -311,7 +311,7 @@ func properties() map[string]*PropertySpec {
 				{Harness: "H_C14_String", Lang: 2, MaxWitnesses: 2},
 				{Harness: "H_C14_Seed", Lang: 2, MaxWitnesses: 1},
 			}
-			ns := []int64{0, 1, 11, 12, 15, 24, 25}
+			ns := []int64{0, 1, 11, 12, 13, 15, 16, 24, 25}
 			if tier == "thorough" {
 				ns = counts0to27()
 			}
@@ -327,7 +327,7 @@ func properties() map[string]*PropertySpec {
 				out = append(out, &Instance{Harness: "H_C14_Entropy", Args: []int64{sel}, Lang: lang, MaxWitnesses: 1})
 				out = append(out, &Instance{Harness: "H_C14_New", Args: []int64{sel, 2}, Lang: lang, MaxWitnesses: 1})
 				for _, n := range ns {
-					if tier != "thorough" && sel >= 0 && sel != 2 && sel != 5 && n != 12 && n != 24 {
+					if tier != "thorough" && sel >= 0 && sel != 2 && sel != 5 && n != 12 && n != 13 && n != 24 {
 						continue
 					}
 					out = append(out, &Instance{Harness: "H_C14_Check", Args: []int64{sel, n}, Lang: lang, MaxWitnesses: 1})
@@ -1209,7 +1209,7 @@ func spellingVariants(vals map[string]interface{}) []map[string]interface{} {
 		}
 	}
 	if len(forms) > 0 {
-		for f := 0; f < 8; f++ {
+		for f := 0; f < 10; f++ {
 			m := clone()
 			for _, name := range forms {
 				m[name] = f
@@ -1217,7 +1217,7 @@ func spellingVariants(vals map[string]interface{}) []map[string]interface{} {
 			out = append(out, m)
 			m2 := clone()
 			for k, name := range forms {
-				m2[name] = (f + k + 1) % 8
+				m2[name] = (f + k + 1) % 10
 			}
 			out = append(out, m2)
 		}
